@@ -30,6 +30,7 @@ def shards(tier, seed):
 	for i in range(n):
 		out.append(dict(name=f'struct-{i}', kind='struct', sub=i, rounds=25 if tier == 'quick' else 150, maxsize=20000 if tier == 'quick' else 100000))
 	out.append(dict(name='widths', kind='widths'))
+	out.append(dict(name='bulk-widths', kind='bulk', n=60 if tier == 'quick' else 600))
 	if tier == 'thorough':
 		out.append(dict(name='huge', kind='huge'))
 	out.append(dict(name='asan-struct', kind='struct', sub=777, rounds=10 if tier == 'quick' else 60, maxsize=5000, sanitizer='asan'))
@@ -126,6 +127,30 @@ def run_shard(sh, ctx):
 			          (lo, hi, [], [M.maxval(hi)]), (lo, hi, [m], [M.maxval(hi)]), (lo, hi, [1, m], [m + 1, M.maxval(hi)])]
 		for lo, hi, A, B in cases:
 			c.pair(A, B, lo, hi, cls='width-straddle', sample=True)
+	elif kind == 'bulk':
+		# the distance reported by the bulk entry points for mixed-width inputs, against the exact oracle (not against the pairwise function)
+		import gambit.metric as gm
+		from gambit.sigs.base import SignatureArray, SignatureList
+		rng = random.Random(f'C02-bulk-{ctx.seed}')
+		for t in range(sh['n']):
+			rdt = rng.choice(['u2', 'u4', 'i2', 'i4'])
+			qdt = rng.choice([d for d in M.DTYPES if M.maxval(d) > M.maxval(rdt)])
+			top = M.maxval(rdt)
+			refs = [sorted(set(rng.sample(range(0, 60), rng.randint(0, 12))) | ({top} if rng.random() < 0.3 else set())) for _ in range(rng.randint(1, 6))]
+			shift = top + 1
+			q = sorted(set(rng.sample(range(0, 60), rng.randint(1, 12))) | {x + shift for x in rng.sample(range(0, 60), 4)} | ({top} if rng.random() < 0.5 else set()))
+			qa = np.array(q, dtype=qdt)
+			rarrs = [np.array(r, dtype=rdt) for r in refs]
+			for cname, cont in (('SignatureArray', SignatureArray(rarrs, None, dtype=np.dtype(rdt))), ('SignatureList', SignatureList(list(rarrs), None, dtype=np.dtype(rdt))), ('list', list(rarrs))):
+				got = gm.jaccarddist_array(qa, cont) if t % 2 else gm.jaccarddist_matrix([qa], cont, chunksize=rng.choice([None, 2]))[0]
+				for j, r in enumerate(refs):
+					su = J.dist_su(set(q), set(r))
+					exp = J.expected_bits(*su)
+					ctx.case(('bulk', cname, qdt, rdt, q, r), nontrivial=su[1] > 0)
+					ctx.count(f'bulk:{cname}')
+					if J.bits(got[j]) != exp:
+						ctx.violation('bulk-dist-bits', f'bulk distance via {cname}: {float(got[j])!r} expected bits {exp:#x} for s/u={su[0]}/{su[1]} (query {qdt}, references {rdt})',
+						              dict(query=q, ref=r, dtypes=[qdt, rdt], container=cname))
 	elif kind == 'huge':
 		n = (1 << 24) + 3
 		a = np.arange(0, n, dtype='u4')
@@ -147,7 +172,7 @@ def finalize(merged, tier, seed, inconclusive):
 		for b in M.DTYPES:
 			if c.get(f'dtypes:{a}/{b}', 0) == 0:
 				inconclusive.append(f'dtype pair never called: {a}/{b}')
-	for n in ['class:equal', 'class:nested', 'class:disjoint-interleaved', 'class:last-equal', 'class:width-straddle', 'both_empty', 'strided_views']:
+	for n in ['class:equal', 'class:nested', 'class:disjoint-interleaved', 'class:last-equal', 'class:width-straddle', 'both_empty', 'strided_views', 'bulk:SignatureArray', 'bulk:list']:
 		if c.get(n, 0) == 0:
 			inconclusive.append(f'class never observed: {n}')
 	merged['notes'].setdefault('sanitizer_stage', {})
